@@ -49,7 +49,7 @@ def _install_tap():
 
 def shards(tier):
     out = [{'kind': 'machine', 'vrl': v} for v in ([24, 32] if tier == 'quick' else [20, 24, 32, 40])]
-    vr = [32, 64, 128]
+    vr = [32, 64, 128] if tier == 'quick' else [20, 32, 64, 128, 256]
     for v in vr:
         for spec_id in ('two-frames', 'noformat'):
             for part in range(4):
@@ -69,7 +69,7 @@ def cases(shard, tier):
         for B in range(v, 3 * v + 1, 2):
             yield {'kind': 'machine', 'vrl': v, 'B': B}
     elif shard['kind'] == 'args':
-        for ocs in (31, 30, -64, 64.5, '64', True, 64.0, 1e3, [64]):
+        for ocs in (31, 30, -64, 64.5, '64', True, 64.0, 1e3, [64]) + ((None,) if tier != 'quick' else ()):
             yield {'kind': 'args', 'ocs': ocs if not isinstance(ocs, list) else {'$tuple': ocs}}
     else:
         v = shard['vrl']
@@ -124,10 +124,7 @@ def run_case(c):
         sp = make_spec(64, 'two-frames')
         v = c['ocs']
         sp['write'] = {'output_chunk_size': v}
-        valid = v in (64.0, 1e3)
-        if v is None:
-            # None means "default" (2**32): valid but allocates 4 GiB; covered by the thorough tier only
-            return Outcome('skipped-default', [], False, digest='none')
+        valid = v is None or v in (64.0, 1e3)      # None = the default 2**32 (4 GiB buffer): thorough tier only
         res = S.run_spec(sp)
         viol = []
         if valid and res['write'] != 'ok':
